@@ -44,7 +44,8 @@ REQUIRED_COUNTERS = {"quick": ["digests_compared_python", "digests_compared_fort
                                   "digests_compared_interpreter", "hashseed_processes"]}
 SHARD_TIMEOUT = {"quick": 900, "thorough": 3400}
 
-VARIANTS = ["identity", "list-perm", "tuple", "set", "frozenset", "phase-order", "after-1-other", "after-3-others"]
+VARIANTS = ["identity", "list-perm", "tuple", "set", "frozenset", "phase-order", "after-1-other", "after-3-others",
+            "same-dag-after-other-configurations"]
 
 
 def _last_json(stdout):
@@ -108,7 +109,7 @@ def produce(item, variant, rng, others):
     """-> {"python": text|None, "fortran": text|None, "interp": text|None}"""
     from dagrt.codegen import PythonCodeGenerator
     script = item["script"]
-    out = {"python": None, "fortran": None, "interp": None}
+    out = {"python": None, "fortran": None, "fortran_instrumented": None, "interp": None}
     nother = {"after-1-other": 1, "after-3-others": 3}.get(variant, 0)
     for k in range(nother):
         o = others[k % len(others)]
@@ -119,6 +120,16 @@ def produce(item, variant, rng, others):
         except Exception:
             pass
     dag = variant_dag(script, variant, rng)
+    if variant == "same-dag-after-other-configurations":
+        # the SAME DAG object was handed to differently configured generators before (instrumented Fortran
+        # with state-update hooks, a Python generator with another class name, the interpreter)
+        try:
+            PythonCodeGenerator(class_name="Earlier")(dag)
+            if item["kind"] == "ftn":
+                ftn.generate(dag, script, module="earlier", hooks=True)
+        except Exception as ex:
+            out["python"] = f"EXC-in-earlier-configuration {type(ex).__name__}: {str(ex)[:80]}"
+            return out
     try:
         out["python"] = PythonCodeGenerator(class_name="M")(dag)
     except Exception as ex:
@@ -128,6 +139,11 @@ def produce(item, variant, rng, others):
             out["fortran"] = ftn.generate(dag, script).code
         except Exception as ex:
             out["fortran"] = f"EXC {type(ex).__name__}: {str(ex)[:80]}"
+        try:
+            # a second configuration of the generator (profiling instrumentation on)
+            out["fortran_instrumented"] = ftn.generate(dag, script, instrument=True).code
+        except Exception as ex:
+            out["fortran_instrumented"] = f"EXC {type(ex).__name__}: {str(ex)[:80]}"
         funcs = ftn.python_functions(script)
     else:
         funcs = prog.python_functions(script)
@@ -172,7 +188,7 @@ def child_main():
                 with case_alarm(60):
                     out = produce(item, v, rng, others)
             except CaseTimeout:
-                out = {"python": "TIMEOUT", "fortran": None, "interp": "TIMEOUT"}
+                out = {"python": "TIMEOUT", "fortran": None, "fortran_instrumented": None, "interp": "TIMEOUT"}
             row[v] = {k: (sha(t) if t is not None else None) for k, t in out.items()}
             if req.get("keep_text"):
                 row[v]["_text"] = out
@@ -242,16 +258,18 @@ def run_shard(shard, rec):
         for hs, t in tables.items():
             for v, row in t[i].items():
                 nvar += 1
-                for what in ("python", "fortran", "interp"):
+                for what in ("python", "fortran", "fortran_instrumented", "interp"):
                     if b[what] is None:
                         continue
                     rec.count({"python": "digests_compared_python", "fortran": "digests_compared_fortran",
+                               "fortran_instrumented": "digests_compared_fortran_instrumented",
                                "interp": "digests_compared_interpreter"}[what])
                     if row[what] != b[what] and (i, what) not in reported:
                         reported.add((i, what))
                         d = diff_witness(item, v, hs, what, shard["seed"])
                         cause = ("hash-seed" if v == "identity" else
                                  "earlier-generator-invocation" if v.startswith("after") else
+                                 "earlier-use-of-the-same-dag-object" if v.startswith("same-dag") else
                                  "statement-container" if v != "phase-order" else "phase-dict-order")
                         mech = f"{what}-depends-on-{cause}:{classify(d) if what != 'interp' else 'events'}"
                         rec.violation(mech, f"{what} output under variant {v}, PYTHONHASHSEED={hs} differs from "
